@@ -88,29 +88,30 @@ inline void jevents(std::string& o, const std::vector<Event>& ev)
 // character of "Unexpected character" are not literals, so a '\n' inside them does not end the record.
 struct capture_stream
 {
-    template<size_t N>
-    capture_stream& operator<<(const char (&lit)[N])
+    template<typename T>
+    capture_stream& operator<<(const T& v)
     {
         auto& L = tl_log;
-        L.cur.append(lit, N - 1);
-        if (N >= 2 && lit[N - 2] == '\n')
+        if constexpr (std::is_array_v<T>)
         {
-            Event e; e.k = "L"; e.s = L.cur.substr(0, L.cur.size() - 1);
-            L.add(std::move(e));
-            L.cur.clear();
+            constexpr size_t N = std::extent_v<T>;
+            L.cur.append(v, N - 1);
+            if (N >= 2 && v[N - 2] == '\n')
+            {
+                Event e; e.k = "L"; e.s = L.cur.substr(0, L.cur.size() - 1);
+                L.add(std::move(e));
+                L.cur.clear();
+            }
         }
+        else if constexpr (std::is_same_v<T, const char*> || std::is_same_v<T, char*>) L.cur += v;
+        else if constexpr (std::is_same_v<T, char>) L.cur += v;
+        else if constexpr (std::is_same_v<T, std::string_view>) L.cur.append(v.data(), v.size());
+        else if constexpr (std::is_same_v<T, ctpg::source_point>)
+            L.cur += "[" + std::to_string(v.line) + ":" + std::to_string(v.column) + "]";
+        else if constexpr (std::is_arithmetic_v<T>) L.cur += std::to_string(v);
+        else { std::ostringstream os; os << v; L.cur += os.str(); }
         return *this;
     }
-    capture_stream& operator<<(const char* s) { tl_log.cur += s; return *this; }
-    capture_stream& operator<<(char c) { tl_log.cur += c; return *this; }
-    capture_stream& operator<<(const std::string_view& sv) { tl_log.cur.append(sv.data(), sv.size()); return *this; }
-    capture_stream& operator<<(const ctpg::source_point& sp)
-    {
-        tl_log.cur += "[" + std::to_string(sp.line) + ":" + std::to_string(sp.column) + "]";
-        return *this;
-    }
-    template<typename T, typename = std::enable_if_t<std::is_arithmetic_v<T>>>
-    capture_stream& operator<<(T v) { tl_log.cur += std::to_string(v); return *this; }
 };
 
 // ---------------------------------------------------------------- value type: derivation tree nodes
@@ -322,6 +323,64 @@ void run_job(const P& p, const Job& j, const std::string& gid, std::string& out)
 }
 } // namespace vh
 
+namespace ctpg_verif { struct access; }
+
+namespace vh
+{
+template<typename P> void dump_parser(const P& p, const std::string& gid, std::string& o);
+
+// dump + diagnostics + all jobs whose id starts with "<gid>:"; `make` returns a new parser (may throw)
+template<typename Make>
+void serve_one(Make&& make, const std::string& gid, const std::vector<Job>& jobs, FILE* out)
+{
+    using P = std::remove_pointer_t<decltype(make())>;
+    std::unique_ptr<P> p;
+    std::string threw, o;
+    tl_log.reset();
+    try { p.reset(make()); }
+    catch (const std::exception& e) { threw = e.what(); }
+    if (!p)
+    {
+        o += "{\"g\":"; jstr(o, gid); o += ",\"construct_threw\":"; jstr(o, threw); o += "}\n";
+        fwrite(o.data(), 1, o.size(), out);
+        return;
+    }
+    o += "{\"dump\":";
+    dump_parser(*p, gid, o);
+    o.back() = '}'; o += "\n";
+    {
+        std::ostringstream ds; p->write_diag_str(ds);
+        o += "{\"diag\":"; jstr(o, ds.str()); o += ",\"g\":"; jstr(o, gid); o += "}\n";
+    }
+    fwrite(o.data(), 1, o.size(), out);
+    std::string prefix = gid + ":";
+    for (const auto& j : jobs)
+    {
+        if (j.id.compare(0, prefix.size(), prefix) != 0) continue;
+        std::string t;
+        run_job(*p, j, gid, t);
+        fwrite(t.data(), 1, t.size(), out);
+    }
+}
+
+// main() of a generated single-grammar TU: <prog> <jobsfile> <outfile>
+template<typename Make>
+int gen_main(Make&& make, const char* gid, int argc, char** argv)
+{
+    if (argc < 3) { fprintf(stderr, "usage: %s <jobs> <out>\n", argv[0]); return 2; }
+    int rc = 0;
+    run_big_stack([&]
+    {
+        auto jobs = read_jobs(argv[1]);
+        FILE* out = fopen(argv[2], "w");
+        if (!out) { perror("out"); rc = 2; return; }
+        serve_one(make, gid, jobs, out);
+        fclose(out);
+    });
+    return rc;
+}
+} // namespace vh
+
 // ---------------------------------------------------------------- the CTPG_VERIF hooks
 namespace ctpg_verif
 {
@@ -459,3 +518,8 @@ struct access
     static const auto& expr_sm(const E& e) { return e.sm; }
 };
 } // namespace ctpg_verif
+
+namespace vh
+{
+template<typename P> void dump_parser(const P& p, const std::string& gid, std::string& o) { ctpg_verif::access::dump(p, gid, o); }
+}
